@@ -528,3 +528,144 @@ func rulePoolFlushComplete(r *Report) {
 	}
 	r.Min(rule, 4)
 }
+
+// R-REMAP-OFFSET: the legacy-offset remapper walks the chunk sizes; an old
+// offset lies in the first chunk whose (remaining) offset is STRICTLY below
+// the chunk's size — an offset equal to the size is the first byte of the next
+// chunk — otherwise the size is subtracted and the file number advanced by one.
+func ruleRemapOffset(r *Report) {
+	const rule = "remap-offset"
+	fn := r.need(rule, "M", "(*IndexRemapper).RemapOffset")
+	if fn == nil {
+		return
+	}
+	isSize := func(v ssa.Value) bool {
+		return derives(v, flowOpts{}, func(x ssa.Value) bool { return fieldOfLoad(x) == "IndexRemapper.sizes" })
+	}
+	isPos := func(v ssa.Value) bool {
+		v = stripIntConv(v)
+		if _, ok := v.(*ssa.Phi); !ok {
+			return false
+		}
+		return derives(v, flowOpts{Arith: true}, isParam(fn, 1)) && !isSize(v)
+	}
+	abs := callSites(fn, "mhprimary.absolutePrimaryPos")
+	if len(abs) == 0 {
+		r.Bad(rule, "RemapOffset/encode", fn.Pos(), "the remapped position is not built with absolutePrimaryPos")
+		return
+	}
+	found := false
+	for _, b := range fn.Blocks {
+		ifi, ok := lastInstr(b).(*ssa.If)
+		if !ok {
+			continue
+		}
+		cond, neg := stripNot(ifi.Cond)
+		bo, ok := cond.(*ssa.BinOp)
+		if !ok {
+			continue
+		}
+		var op token.Token
+		switch {
+		case isPos(bo.X) && isSize(bo.Y):
+			op = bo.Op
+		case isPos(bo.Y) && isSize(bo.X):
+			// SIZE op POS  ==  POS op' SIZE
+			switch bo.Op {
+			case token.LSS:
+				op = token.GTR
+			case token.LEQ:
+				op = token.GEQ
+			case token.GTR:
+				op = token.LSS
+			case token.GEQ:
+				op = token.LEQ
+			default:
+				op = bo.Op
+			}
+		default:
+			continue
+		}
+		found = true
+		// which edge reaches the successful return
+		for _, a := range abs {
+			tIdx := 0
+			if neg {
+				tIdx = 1
+			}
+			onTrue, _ := guarded(fn, a, edgeSet{Edge{b, tIdx}: true}, nil)
+			onFalse, _ := guarded(fn, a, edgeSet{Edge{b, 1 - tIdx}: true}, nil)
+			strict := (onTrue && op == token.LSS) || (onFalse && op == token.GEQ)
+			r.Check(strict, rule, "RemapOffset/chunk-boundary", instrPos(ifi), "an offset belongs to a chunk iff it is strictly below the chunk's size",
+				fmt.Sprintf("the chunk is selected when [offset %s size] (true branch selects: %v): an old offset equal to a chunk's size is the first record of the NEXT chunk; it would be mapped one past the end of the previous file and the key is lost after the upgrade", op, onTrue))
+		}
+	}
+	if !found {
+		r.Bad(rule, "RemapOffset/chunk-boundary", fn.Pos(), "no comparison of the remaining offset with a chunk size found")
+	}
+	// the other branch subtracts the size and steps the file number by one
+	subOK, stepOK := false, false
+	eachInstr(fn, func(in ssa.Instruction) {
+		bo, ok := in.(*ssa.BinOp)
+		if !ok {
+			return
+		}
+		if bo.Op == token.SUB && isPos(bo.X) && isSize(bo.Y) {
+			subOK = true
+		}
+		if bo.Op == token.ADD {
+			if k, isC := intConst(bo.Y); isC && k == 1 {
+				if _, isPhi := bo.X.(*ssa.Phi); isPhi && derives(bo.X, flowOpts{Arith: true}, isFieldLoad("IndexRemapper.firstFile")) {
+					stepOK = true
+				}
+			}
+		}
+	})
+	r.Check(subOK, rule, "RemapOffset/subtracts-chunk-size", fn.Pos(), "moving on to the next chunk subtracts this chunk's size", "the remaining offset is not reduced by the chunk's size when moving to the next chunk")
+	r.Check(stepOK, rule, "RemapOffset/file-number-steps-from-first", fn.Pos(), "the file number starts at the header's first file and advances by one per chunk", "the file number does not start at IndexRemapper.firstFile and advance by one per chunk")
+	for _, a := range abs {
+		args := a.Common().Args
+		okArgs := len(args) == 3 && derives(args[0], flowOpts{Arith: true}, isParam(fn, 1)) &&
+			derives(args[1], flowOpts{Arith: true}, isFieldLoad("IndexRemapper.firstFile")) &&
+			fieldOfLoad(stripIntConv(args[2])) == "IndexRemapper.maxFileSize"
+		r.Check(okArgs, rule, "RemapOffset/encode", a.Pos(), "new position = absolutePrimaryPos(remaining offset, file number, the remapper's limit)", "absolutePrimaryPos is not called with (remaining offset, file number, IndexRemapper.maxFileSize)")
+	}
+	r.Min(rule, 4)
+}
+
+// R-CHUNK-FILE-FRESH: the upgrade's chunk files are created empty. The upgrade
+// is resumable only because a re-run after a crash *replaces* what the torn run
+// left behind; opening with O_CREATE but without O_TRUNC/O_EXCL appends behind
+// the leftovers.
+func ruleChunkFileFresh(r *Report) {
+	const rule = "chunk-file-fresh"
+	for _, c := range []struct{ alias, fn string }{{"I", "chunkOldIndex"}, {"M", "chunkOldPrimary"}} {
+		fn := r.need(rule, c.alias, c.fn)
+		if fn == nil {
+			continue
+		}
+		n := 0
+		for _, oc := range deepCallSites(fn, "os.OpenFile", "os.Create") {
+			if cname(oc) == "os.Create" {
+				n++
+				r.Ok(rule, shortFunc(fn)+"/creates-empty", oc.Pos(), "os.Create truncates")
+				continue
+			}
+			flags, isC := intConst(oc.Common().Args[1])
+			if !isC {
+				r.Bad(rule, shortFunc(fn)+"/creates-empty", oc.Pos(), "open flags are not a constant")
+				continue
+			}
+			if flags&int64(osOCreate) == 0 {
+				continue // opens an existing file (the legacy file itself)
+			}
+			n++
+			r.Check(flags&int64(osOTrunc|osOExcl) != 0, rule, shortFunc(fn)+"/creates-empty", oc.Pos(), "chunk files are created with O_TRUNC (or O_EXCL)",
+				"a chunk file is opened with O_CREATE but without O_TRUNC/O_EXCL: when the upgrade is re-run after a crash inside chunking, the new chunks are appended behind the torn leftovers of the previous attempt — the converted index/primary is misparsed (keys lost, panics)")
+		}
+		if n == 0 {
+			r.Bad(rule, shortFunc(fn)+"/creates-empty", fn.Pos(), "the chunker creates no file")
+		}
+	}
+	r.Min(rule, 2)
+}
